@@ -221,3 +221,11 @@ func GuardedErrors(r *Run, id string) {
 		r.checkGuardedErrors(id, toleratedErrors, rels...)
 	}
 }
+
+// GuardedNote is appended to the explanation of properties that run the guarded-error rule.
+func GuardedNote(id string) string {
+	if rels := guardedPackages[id]; len(rels) > 0 {
+		return " Also (errors.guarded): in " + strings.Join(rels, ", ") + " a function that returns an error reaches a success return from an error-returning call only across that call's nil-error edge (the deliberate exceptions are listed with their reason under 'E11 tolerated error sites')."
+	}
+	return ""
+}
